@@ -26,7 +26,7 @@ KNOWN = os.path.join(VERIF, "known_findings.txt")
 
 KANI_BASE = [
     "cargo", "kani", "-p", "open-coroutine-core", "--no-default-features", "--features", "syscall",
-    "-Z", "stubbing", "-Z", "unstable-options", "--ignore-global-asm", "--no-assertion-reach-checks",
+    "-Z", "stubbing", "-Z", "unstable-options", "-Z", "mem-predicates", "--ignore-global-asm", "--no-assertion-reach-checks",
     "--output-format", "terse",
 ]
 
@@ -205,7 +205,7 @@ def main(argv):
         try:
             timeout_s = g.get("timeout_thorough", 1800) if args.tier == "thorough" else g.get("timeout", 300)
             jobs = min(g.get("jobs", 8), max(1, len(harnesses)))
-            extra = list(g.get("kani_args", []))
+            extra = list(g.get("kani_args", [])) + os.environ.get("VERIF_KANI_EXTRA", "").split()
             log(f"[{pid}] group {gi + 1}/{len(groups)}: {len(harnesses)} harness(es), tier={args.tier}, "
                 f"timeout={timeout_s}s/harness, jobs={jobs}")
             qualified = [qualify(g["mounts"], h) for h in harnesses]
